@@ -180,3 +180,29 @@ def dh_public(group, private):
     ln = (CURVES[group]['bits'] + 7) // 8
     R = ec_mul(group, private)
     return R[0].to_bytes(ln, 'big') + R[1].to_bytes(ln, 'big')
+
+
+def dh_peer_forcing_leading_zero(group, own_public, limit=200000):
+    """A valid peer public value g^k (k small, found by stepping k) for which the shared secret with the holder of own_public starts
+    with a zero octet: shared_k = own_public^k is stepped with one multiplication / point addition per candidate, without the
+    private scalar.  Returns (peer_public_octets, k) or None."""
+    if group in MODP_GROUP_BITS:
+        bits = MODP_GROUP_BITS[group]
+        p = modp_prime(bits)
+        a = int.from_bytes(own_public, 'big')
+        s, y = a, 2
+        for k in range(2, limit):
+            s, y = s * a % p, y * 2 % p
+            if s >> (bits - 8) == 0 and 1 < y < p - 1:
+                return y.to_bytes(bits // 8, 'big'), k
+        return None
+    c = CURVES[group]
+    ln = (c['bits'] + 7) // 8
+    A = (int.from_bytes(own_public[:ln], 'big'), int.from_bytes(own_public[ln:], 'big'))
+    G = (c['gx'], c['gy'])
+    S, Y = A, G
+    for k in range(2, limit):
+        S, Y = _ec_add(c, S, A), _ec_add(c, Y, G)
+        if S is not None and S[0] >> (8 * (ln - 1)) == 0:
+            return Y[0].to_bytes(ln, 'big') + Y[1].to_bytes(ln, 'big'), k
+    return None
